@@ -30,14 +30,11 @@ func c17CheckDecode(t *verifrt.T, buf []byte) {
 		t.Observe("cur", uint64(cur))
 		t.ObserveBytes("val", val)
 	}
-	// recorded classes
-	kfCtrl := and(accepted, !tok.OK, tok.RawCtrl, int(cur) == tok.End)
-	t.Known("D4-raw-control-character-in-string-accepted", kfCtrl)
-	t.Assert("accept-only-valid-literal", implies(accepted, or(tok.OK, kfCtrl)))
+	t.Assert("accept-only-valid-literal", implies(accepted, tok.OK))
 	t.Assert("valid-literal-accepted", implies(tok.OK, accepted))
-	good := and(accepted, or(tok.OK, kfCtrl))
+	good := and(accepted, tok.OK)
 	t.Assert("cursor-after-closing-quote", implies(good, int(cur) == tok.End))
-	if accepted && (tok.OK || tok.RawCtrl) {
+	if accepted && tok.OK {
 		same := verifref.BytesEq(val, tok.Value)
 		kfUTF8 := and(tok.BadUTF8, !same)
 		t.Known("D28-buffer-mode-keeps-invalid-UTF-8", kfUTF8)
